@@ -66,7 +66,12 @@ def independence(run, repo, pkg):
     rets = [st.value for st, _ in walk(li.node) if isinstance(st, ast.Return)]
     o2 = li.posparams[1]
     ok = None
-    if len(rets) == 1 and isinstance(rets[0], ast.Call) and norm(rets[0].func) == 'all' and rets[0].args \
+    if len(rets) == 1 and isinstance(rets[0], ast.Call) and norm(rets[0].func) == 'any' and rets[0].args \
+            and isinstance(rets[0].args[0], (ast.GeneratorExp, ast.ListComp)) and 'independent_from' in norm(rets[0].args[0].elt):
+        run.violation('R11.indep', li, rets[0], 'a layer is independent from a gate only if ALL of its gates are; with any() a gate that overlaps one gate of '
+                      'the layer is still packed into it or slides past it')
+        ok = 'reported'
+    elif len(rets) == 1 and isinstance(rets[0], ast.Call) and norm(rets[0].func) == 'all' and rets[0].args \
             and isinstance(rets[0].args[0], (ast.GeneratorExp, ast.ListComp)):
         ge = rets[0].args[0]
         gv = ge.generators[0]
@@ -75,6 +80,8 @@ def independence(run, repo, pkg):
             and norm(ge.elt.func.value) == norm(gv.target) and [norm(a) for a in ge.elt.args] == [o2]
     if ok is None:
         run.undecided('R11.indep', li, 'independent_from', 'not of the form all(gate.independent_from(x) for gate in self.gates)')
+    elif ok == 'reported':
+        pass
     else:
         run.check(ok, 'R11.indep', li, rets[0], 'a layer is independent from a gate iff all of its gates are')
 
